@@ -139,6 +139,10 @@ class Interp:
             if val[0] != "some":
                 raise Undecided("Some(..) pattern against %s" % val[0])
             return self.bind_pat(kind, pat["subs"][0], val[1], env, used)
+        if k in ("path", "tstruct") and pat.get("res") and str(pat["res"][2]).endswith("None"):
+            if val[0] not in ("none", "some"):
+                raise Undecided("None pattern against %s" % val[0])
+            return val[0] == "none"
         raise Undecided("from_str of %s: pattern kind %s" % (kind, k))
 
     def slet(self, kind, st, env, used):
@@ -340,6 +344,18 @@ class Interp:
             if br is None:
                 raise Undecided("if without else")
             return self.block(kind, br, env, used)
+        if k == "match" and e.get("src") == "normal":
+            # an ordinary match over an Option / tuple of pieces: first arm whose pattern binds
+            val = self.expr(kind, e["scrut"], env, used)
+            for arm in e["arms"]:
+                if arm.get("guard") is not None:
+                    raise Undecided("from_str of %s: match guard" % kind)
+                env2, used2 = dict(env), dict(used)
+                if self.bind_pat(kind, arm["pat"], val, env2, used2):
+                    env.update(env2)
+                    used.update(used2)
+                    return self.expr(kind, arm["body"], env, used)
+            raise Undecided("from_str of %s: no match arm applies" % kind)
         raise Undecided("from_str of %s: expression kind %s" % (kind, k))
 
     def dispatch(self, template):
